@@ -232,10 +232,11 @@ class CallGraph:
             for row in r["rows"]:
                 if "target" not in row:
                     continue
-                if "RsCelFunction" in r["ty"]:
-                    func_targets.add(row["target"])
-                elif "RsCelMacro" in r["ty"]:
+                # the alias names (RsCelFunction / RsCelMacro) are expanded in the facts
+                if "Interpreter<" in r["ty"] or "RsCelMacro" in r["ty"]:
                     macro_targets.add(row["target"])
+                elif "dyn std::ops::Fn(" in r["ty"] or "RsCelFunction" in r["ty"]:
+                    func_targets.add(row["target"])
         self.func_targets = func_targets
         self.macro_targets = macro_targets
         # trait method name -> local impl bodies   e.g. ("Tokenizer","next") -> [...]
